@@ -49,6 +49,11 @@ def generate(rng, i, tier):
         hdr = ["id"] + [HEADER_POOL[p].format(c + 1) for c, p in enumerate(picks)]
         # (cells that make date parsing emit Python warnings: whether those are errors is process-global state)
         rows = gen.gen_rows(rng, hdr=hdr, nasty=rng.random() < 0.3, extra_cells=["2024-03-05 10:30 PST", "2024-01-01", "12/31/2024 7pm EST", "1 Jan 2024 09:00 XYZ"])
+        if rng.random() < 0.03 and len(rows) > 2:
+            # one data cell larger than the csv module's default field size limit (128 KiB)
+            big = [r for r in rows[1:] if r]
+            if big:
+                rng.choice(big)[-1] = "x" * 140000
         files.append({"rows": rows, "classes": sorted({NASTY_CLASS[p] for p in picks}), "dialect": rng.choice([[",", '"']] * 3 + [[";", '"'], ["|", "'"]])})
     njobs = rng.randint(2, 6)
     jobs = []
@@ -64,6 +69,11 @@ def generate(rng, i, tier):
             fi, m = prev["file"], prev["member"]
         else:
             m = gen.gen_member(rng, ["id"] + [str(c) for c in range(1, ncol)], len(files[fi]["rows"]), None, max_comps=4, zoo_p=0.6, zoo_pool=gen.ZOO_SAFE)
+            if rng.random() < 0.2:
+                # append()/replace() change the headers or the line in place: nothing of that may survive into another job
+                m["comps"].insert(rng.randint(0, len(m["comps"])), gen.zoo_comp(rng, ["id"] + [str(c) for c in range(1, ncol)], 40 + j, gen.ZOO_REWRITE))
+            if rng.random() < 0.3:
+                m["comps"].append(rng.choice(["@nh = count_headers()", 'print("$.csvpath.headers")', "@hn = header_name(1)"]))
         progs.append(m)
         kind = rng.choice(["direct", "via", "via", "named", "via_shared", "via_shared", "chain"])
         jobs.append(
@@ -208,12 +218,17 @@ def _warm(root, seed, nfiles, dialects):
     seams.reset(seed + 1)
     with ops.quiet():
         for f in range(nfiles):
-            cs = CsvPaths(delimiter=dialects[f][0], quotechar=dialects[f][1])
-            cp = cs.csvpath()
-            cp.fast_forward(f"$src/f{f}.csv[*][ yes() ]")
-            cs.file_manager.add_named_file(name=f"f{f}", path=f"src/f{f}.csv")
-            cs.paths_manager.add_named_paths(name="warmup", paths=["$[*][ yes() ]"])
-            cs.fast_forward_paths(pathsname="warmup", filename=f"f{f}")
+            try:
+                cs = CsvPaths(delimiter=dialects[f][0], quotechar=dialects[f][1])
+                cp = cs.csvpath()
+                cp.fast_forward(f"$src/f{f}.csv[*][ yes() ]")
+                cs.file_manager.add_named_file(name=f"f{f}", path=f"src/f{f}.csv")
+                cs.paths_manager.add_named_paths(name="warmup", paths=["$[*][ yes() ]"])
+                cs.fast_forward_paths(pathsname="warmup", filename=f"f{f}")
+            except Exception as e:  # noqa: BLE001
+                # the earlier session may itself have failed on this file (e.g. a field above the csv size limit)
+                if not ops.in_repo(e):
+                    raise
     return True
 
 
@@ -306,6 +321,8 @@ def execute(sc):
         out.probe("header cell with a newline", "newline" in classes)
         out.probe("two jobs through one shared CsvPaths over the same file", any(a["kind"] == b["kind"] == "via_shared" and a["file"] == b["file"] for x, a in enumerate(jobs) for b in jobs[x + 1 :]))
         out.probe("two chain jobs (source-mode preceding) over different files in one process", len({j["file"] for j in jobs if j["kind"] == "chain"}) > 1)
+        out.probe("file with a cell above the csv field size limit", any(len(c) > 131072 for f in sc["files"] for r in f["rows"] for c in r))
+        out.probe("job that edits headers or the line in place", any(c.startswith(("append(", "replace(")) for j in jobs for c in j["member"]["comps"]))
         out.probe("exact repeat of a job", any(jobs[a] == jobs[b] for a in range(len(jobs)) for b in range(a + 1, len(jobs))))
         out.extra["header_classes"] = classes
         out.log(hist, len(out.violations))
